@@ -71,9 +71,9 @@ def plan(tier, seed):
     sweeps = []
     for i in range(nsweep):
         for tid in (1, 2):
-            for ch in range(16):
+            for ch in range(24):
                 sweeps.append({"kind": "sweep", "part": "C" if i % 2 == 0 else "B", "index": i, "tid": tid, "chunk": ch,
-                               "exhaustive": "depth-1 sweep: one forced pre-emption at every traced line of thread 1 / thread 2 of a reference run"})
+                               "exhaustive": "depth-1 sweep: one forced pre-emption at every traced line (first 6000) of thread 1 / thread 2 of a reference run"})
     items = sweeps + items
     return items
 
@@ -100,8 +100,12 @@ def expand(item, seed):
         rng = random.Random(derive_seed(seed, ID + "S", item["index"]))
         base = genC(rng) if item["part"] == "C" else genB(rng)
         base["threads"] = 2
+        base.pop("send_stall", None)
+        base.pop("timeout", None)
+        base.pop("frag_gap", None)
+        base.pop("api", None)
         if item["part"] == "B":
-            base["sends"] = [ops[:2] for ops in base["sends"][:2]]
+            base["sends"] = [[dict(o, len=min(int(o["len"]), 130)) for o in ops[:2]] for ops in base["sends"][:2]]
         else:
             base["msgs"] = base["msgs"][:4]
             base["sizes"] = [7, 50]
@@ -109,8 +113,7 @@ def expand(item, seed):
         ref = run(dict(base, policy={"kind": "at", "tid": -1, "k": -1}))
         tid = item["tid"]
         lines = ref.info.get("lines", {}).get(tid, 0)
-        if lines > 4000 and item["chunk"] == 0:
-            raise HarnessError("C12 sweep: reference run has %d lines, more than the chunks cover" % lines)
+        # 24 chunks of 250 lines; a longer reference run is swept over its first 6000 lines only (the label says so)
         for kk in range(1 + item["chunk"] * 250, min(lines, (item["chunk"] + 1) * 250) + 1):
             yield dict(base, policy={"kind": "at", "tid": tid, "k": kk})
 
